@@ -111,7 +111,7 @@ func RunC13(seed int64, tier, out string, start int, res *hx.Result) int {
 	rounds, perEnv, perKind, byteMuts := 1, 3, 4, 3
 	thorough := tier == "thorough"
 	if thorough {
-		rounds, perEnv, perKind, byteMuts = 12, 8, 12, 10
+		rounds, perEnv, perKind, byteMuts = 6, 6, 10, 8
 	}
 
 	// ---- named classes of the property text, present in every run ----
@@ -405,7 +405,7 @@ func RunC16(seed int64, tier, out string, start int, res *hx.Result) int {
 	g := r.g
 	n := 14
 	if tier == "thorough" {
-		n = 400
+		n = 300
 	}
 	small := []wire.Type{wire.Ping, wire.Pong, wire.Shutdown, wire.AuthResponse, wire.LedgerChannelProposalAcc, wire.SubChannelProposalAcc,
 		wire.VirtualChannelProposalAcc, wire.ChannelProposalRej, wire.ChannelUpdateAcc, wire.ChannelUpdateRej}
